@@ -151,10 +151,19 @@ def _setup(ctx, state):
     state["grid"] = AtomGrid(rg, degrees=[g["deg"]], center=c, rotate=g["rotate"])
     # a second grid object of the same size but another rotation: solves alternate between the two
     state["grid_b"] = AtomGrid(rg, degrees=[g["deg"]], center=c, rotate=g["rotate"] + 17)
+    if g.get("as_molgrid"):
+        # the same atomic grids wrapped as one-atom molecular grids (store=True): the solvers' MolGrid path
+        from grid.becke import BeckeWeights
+        from grid.molgrid import MolGrid
+
+        for k in ("grid", "grid_b"):
+            state[k] = MolGrid(np.array([1]), [state[k]], BeckeWeights(order=3), store=True)
     state["tf"] = InverseRTransform(tf)
     state["center"] = c
     state["pts0"] = c + np.random.RandomState(g["pseed"]).uniform(-2.0, 2.0, size=(12, 3))  # oracle's own copy
     state["pts"] = state["pts0"].copy()  # the caller's evaluation points: ONE array handed to every returned potential
+    state["pts_b0"] = c + np.random.RandomState(g["pseed"] + 1).uniform(-2.0, 2.0, size=(12, 3))
+    state["pts_b"] = state["pts_b0"].copy()
     state["rho"] = {}  # the caller's density arrays: built once per density, handed to every solve
     # ONE options dict, reused by every BVP call of the run - and by the IVP calls too when it starts out
     # empty (tol 1e-6 is the solver's own default), which is what a caller with no special options does
@@ -193,7 +202,25 @@ def _op_solve(ctx, op, state):
     if kw.pop("exact_boundary", False):
         # the asymptotic value handed in by the caller instead of being integrated: total charge * sqrt(4 pi)
         kw["boundary"] = float(sum(co for kind, co, _ in spec if kind == "s") * np.sqrt(4 * np.pi))
-    oc = _outcome(lambda: solve_poisson_bvp(g, rho, state["tf"], ode_params=params, **kw)(pts))
+    held = {}
+
+    def call():
+        pot = solve_poisson_bvp(g, rho, state["tf"], ode_params=params, **kw)
+        first = pot(pts)
+        held["keep"] = np.array(first, dtype=float)
+        held["second"] = pot(state["pts_b"])  # same number of points, other points
+        held["first_after"] = first
+        return first
+
+    oc = _outcome(call)
+    if oc[0] == "ok" and not np.array_equal(np.asarray(held["first_after"], dtype=float), held["keep"], equal_nan=True):
+        ctx.violate("result-overwritten", "solve", which, "the array returned by the potential changed when the potential was evaluated again at other points")
+    if oc[0] == "ok":
+        ex_b = _potential(_dens_spec(ctx, which), state["pts_b0"], c)
+        eb = float(np.max(np.abs(np.asarray(held["second"], dtype=float) - ex_b))) / max(1.0, float(np.max(np.abs(ex_b))))
+        if not np.isfinite(eb) or eb > _acc_bound(ctx):
+            ctx.violate("accuracy", "solve", which, f"second evaluation of the returned potential (other points) off by {eb:.3g}")
+        oc = ("ok", held["keep"])
     sig = which
     if oc[0] == "raise":
         ctx.violate("bvp-raise", "solve", f"{sig}:{type(oc[1]).__name__}", f"solve_poisson_bvp raised {oc[1]!r} (density {which}, rng draw {beh}:{bseed}, grid {ctx.spec['grid']})")
@@ -254,7 +281,7 @@ def _op_ivp(ctx, op, state):
         ctx.probes.hit("one-options-dict-shared-by-bvp-and-ivp")
     else:
         state["ivp_params"] = state.get("ivp_params", {})
-    oc = _outcome(lambda: solve_poisson_ivp(g, rho, state["tf"], r_interval=(500.0, 1e-3), ode_params=state["ivp_params"])(pts))
+    oc = _outcome(lambda: solve_poisson_ivp(g, rho, state["tf"], r_interval=tuple(ctx.spec["grid"].get("r_interval") or (500.0, 1e-3)), ode_params=state["ivp_params"])(pts))
     if oc[0] == "raise":
         ctx.violate("ivp-raise", "ivp", type(oc[1]).__name__, f"solve_poisson_ivp raised {oc[1]!r} on the shared grid / options")
         return
@@ -369,6 +396,7 @@ OPS = {"solve": _op_solve, "ivp": _op_ivp, "robust": _op_robust, "perturb": _op_
 class PoissonSeamEngine:
     NAME = "rng-seam-poisson"
     PID = PID
+    RUN_TIMEOUT_S = 900  # a run is 5-20 Poisson solves of 0.3-3 s each; generous under machine load
     LEVEL = "exploration"
     RULE = (
         "one run = one shared AtomGrid object (Gauss-Legendre/Chebyshev through BeckeRTransform, 60-70 radial nodes, degree 3-6, random centre and rotation "
@@ -420,6 +448,9 @@ class PoissonSeamEngine:
         if rng.random() < 0.25:
             opts["exact_boundary"] = True
         grid["opts"] = opts
+        grid["as_molgrid"] = rng.random() < 0.25
+        ri = rng.choice([[500.0, 1e-3], [1000.0, 1e-4], [300.0, 1e-3]])
+        grid["r_interval"] = [ri[0], max(ri[1], 2 * grid["rmin"])]  # must lie inside the transform's domain [rmin, inf)
 
         def dens():
             out = [["s", round(rng.uniform(0.3, 1.5), 3), round(rng.uniform(1.0, 4.0), 3)] for _ in range(rng.randint(1, 2))]
